@@ -88,7 +88,7 @@ pub fn replay_file(path: &str, run_case: &(dyn Fn(&GCase) -> Outcome + Sync), re
     };
     let v: serde_json::Value = serde_json::from_str(&txt).expect("replay file is not JSON");
     let cv = if v.get("case").is_some() { v["case"].clone() } else { v.clone() };
-    if cv.get("model").is_some() || cv.get("native").is_some() || cv.get("value_kind").is_some() {
+    if cv.get("model").is_some() || cv.get("native").is_some() || cv.get("value_kind").is_some() || cv.get("special").is_some() {
         // E2 / native / value cases: re-run that one model instance twice
         let prop = v["property"].as_str().unwrap_or("").to_string();
         let a = replay_model(&prop, &cv);
